@@ -24,8 +24,8 @@ PROPS = ("C03", "C04")
 BASE = dict(ActStrict=True, ShiftByMin=True, LatentCPs=set(), DoEmit=True, PairSameRow=False, ColdWraps=False,
             NoBreak=False, BruteForce=False)
 CFG = {
-    "quick": dict(Temps={0, 100, 200}, CPs={1, 2}, DTCs={0, 50}, MaxStreams=3, HotOpts={0, 1, 2, 4, 5}, ColdOpts={0, 2, 3, 5}),
-    "deepA": dict(Temps={0, 100, 200, 300}, CPs={1, 2}, DTCs={0, 50}, MaxStreams=3, HotOpts={0, 1, 2, 3, 4, 5}, ColdOpts={0, 1, 2, 3, 4, 5}),
+    "quick": dict(Temps={0, 100, 200}, CPs={1, 2}, DTCs={0, 50}, MaxStreams=3, HotOpts={0, 1, 2, 4, 5, 6}, ColdOpts={0, 2, 3, 5, 6}),
+    "deepA": dict(Temps={0, 100, 200, 300}, CPs={1, 2}, DTCs={0, 50}, MaxStreams=3, HotOpts={0, 1, 2, 3, 4, 5, 6}, ColdOpts={0, 1, 2, 3, 4, 5, 6}),
     "deepB": dict(Temps={0, 100, 200}, CPs={1, 2}, DTCs={0, 50}, MaxStreams=4, HotOpts={2, 4}, ColdOpts={2, 4}),
     "tiny": dict(Temps={0, 100, 200}, CPs={1, 2}, DTCs={0, 50}, MaxStreams=2, HotOpts={0, 1, 2, 3, 5}, ColdOpts={0, 1, 2, 3}),
 }
@@ -168,7 +168,13 @@ def replay(args):
     # lowest-grade-first optimum (isothermal ladders): TLC's allocation equals the closed form (invariant C04_Optimal)
     exp_h = [emb.Q(float(fr(q))) for q in case["hotQ"]]
     exp_c = [emb.Q(float(fr(q))) for q in case["coldQ"]]
-    agree = all(close(a, b, scale) for a, b in zip(hq + cq, exp_h + exp_c))
+    def by_level(qs, us):          # utilities at one and the same level are interchangeable: compare the level's total
+        tot = {}
+        for q, u in zip(qs, us):
+            tot[(u["lo"], u["hi"])] = tot.get((u["lo"], u["hi"]), 0.0) + q
+        return [tot[k] for k in sorted(tot)]
+    agree = all(close(a, b, scale) for a, b in zip(by_level(hq, case["HU"]) + by_level(cq, case["CU"]),
+                                                    by_level(exp_h, case["HU"]) + by_level(exp_c, case["CU"])))
     if case["isothermal"] and not agree:
         bad("C04.lowest_grade_first", got=hq + cq, expected=exp_h + exp_c)
     drift = None if agree else "duties differ from spec/Utility.tla allocation (glide ladder)"
